@@ -20,9 +20,10 @@ static const double EPSF = 5.9604644775390625e-8;   // 2^-24: half an ulp of sin
 
 static inline int ilog(int64_t x) { int r = 0; while (x > 0) { r++; x >>= 1; } return r; }
 
+struct Field { size_t pos; int bits; };   // where a header field was written (for field-level mutation by the fuzzing harnesses)
 struct BitW {
-  std::vector<uint8_t> b; size_t n = 0;
-  void put(uint64_t v, int bits) { for (int i = 0; i < bits; i++) { if ((n & 7) == 0) b.push_back(0); if ((v >> i) & 1) b[n >> 3] |= (uint8_t)(1u << (n & 7)); n++; } }
+  std::vector<uint8_t> b; size_t n = 0; std::vector<Field> *log = nullptr;
+  void put(uint64_t v, int bits) { if (log && bits > 0) log->push_back(Field{n, bits}); for (int i = 0; i < bits; i++) { if ((n & 7) == 0) b.push_back(0); if ((v >> i) & 1) b[n >> 3] |= (uint8_t)(1u << (n & 7)); n++; } }
   void put_msb(uint32_t code, int len) { for (int i = len - 1; i >= 0; i--) put((code >> i) & 1, 1); }   // Huffman codewords: first bit read = first branch
 };
 struct BitR {
@@ -105,8 +106,8 @@ struct Setup {
 
 // ------------------------------------------------------------------------------------------------- header writers (spec 4.2)
 static inline void put_str(BitW &w, const char *s) { for (; *s; s++) w.put((uint8_t)*s, 8); }
-static inline std::vector<uint8_t> write_id(const Setup &s) {
-  BitW w; w.put(1, 8); put_str(w, "vorbis"); w.put(0, 32); w.put((uint32_t)s.channels, 8); w.put(s.rate, 32);
+static inline std::vector<uint8_t> write_id(const Setup &s, std::vector<Field> *log = nullptr) {
+  BitW w; w.log = log; w.put(1, 8); put_str(w, "vorbis"); w.put(0, 32); w.put((uint32_t)s.channels, 8); w.put(s.rate, 32);
   w.put((uint32_t)s.br_upper, 32); w.put((uint32_t)s.br_nominal, 32); w.put((uint32_t)s.br_lower, 32); w.put((uint32_t)s.bs0log, 4); w.put((uint32_t)s.bs1log, 4); w.put(1, 1); return w.b;
 }
 static inline std::vector<uint8_t> write_comment(const std::string &vendor, const std::vector<std::string> &c) {
@@ -120,8 +121,8 @@ static inline void write_book(BitW &w, const Book &b) {
   w.put((uint32_t)b.lookup, 4);
   if (b.lookup) { w.put(b.qmin, 32); w.put(b.qdelta, 32); w.put((uint32_t)(b.qbits - 1), 4); w.put((uint32_t)b.seqp, 1); for (uint32_t m : b.mult) w.put(m, b.qbits); }
 }
-static inline std::vector<uint8_t> write_setup(const Setup &s) {
-  BitW w; w.put(5, 8); put_str(w, "vorbis");
+static inline std::vector<uint8_t> write_setup(const Setup &s, std::vector<Field> *log = nullptr) {
+  BitW w; w.log = log; w.put(5, 8); put_str(w, "vorbis");
   w.put((uint32_t)s.books.size() - 1, 8); for (auto &b : s.books) write_book(w, b);
   w.put(0, 6); w.put(0, 16);
   w.put((uint32_t)s.floors.size() - 1, 6);
@@ -149,6 +150,9 @@ static inline std::vector<uint8_t> write_setup(const Setup &s) {
   for (auto &m : s.modes) { w.put(m.blockflag, 1); w.put(0, 16); w.put(0, 16); w.put(m.mapping, 8); }
   w.put(1, 1); return w.b;
 }
+
+// overwrite one logged field of a serialised header with a new value (LSb-first, like put)
+static inline void patch_field(std::vector<uint8_t> &b, const Field &f, uint64_t v) { for (int i = 0; i < f.bits; i++) { size_t p = f.pos + i; if ((p >> 3) >= b.size()) return; if ((v >> i) & 1) b[p >> 3] |= (uint8_t)(1u << (p & 7)); else b[p >> 3] &= (uint8_t)~(1u << (p & 7)); } }
 
 // ------------------------------------------------------------------------------------------------- strict header parsers (spec 4.2)
 // Return an empty string on success, otherwise the reason the header is not a valid Vorbis I header.
